@@ -53,7 +53,7 @@ const (
 
 type vfC07Step struct {
 	At        int64  `json:"at_ns"`
-	Op        string `json:"op"` // msg reply readerr snap awaitsweep
+	Op        string `json:"op"` // msg reply readerr snap awaitsweep opengate
 	Sid       uint32 `json:"sid,omitempty"`
 	No        int    `json:"no,omitempty"`
 	Dst       int    `json:"dst,omitempty"`
@@ -444,6 +444,8 @@ func vfC07Drive(sc *vfC07Script) func(w *vfC07World, sm *udpSessionManager) {
 				w.InjectReadErr(st.Sid)
 			case "snap":
 				w.Snapshot(sm, false)
+			case "opengate":
+				w.OpenGate(st.Sid)
 			case "awaitsweep":
 				if gateBuf == nil {
 					gateBuf = make([]byte, 1<<20)
@@ -882,5 +884,106 @@ func TestVerifC07EndSweep(t *testing.T) {
 	}
 	if k.Counter("ev_closes_by_sweeper_during_final_cleanup") == 0 && k.ReplayCase() == "" {
 		k.Inconclusive("no periodic sweep ever overlapped the final cleanup")
+	}
+}
+
+// TestVerifC07WriteGate: a session is torn down while the receive loop is still inside the
+// socket write of one of its datagrams. The fake WriteTo of that datagram is gated: the datagram
+// is handed to the open socket, the call returns (successfully) only when the driver opens the
+// gate. Meanwhile the session dies -- socket read error, failure to send a reply to the client, or
+// the sweeper (the idle timeout passes during the write). Then the gate opens and the client keeps
+// sending with the same ID, with and without datagrams of other sessions in between. Whatever
+// happened in the window, the later datagrams must start a fresh session on a new socket: never a
+// write to the old closed socket, table equals the sessions alive by the log, census at the end.
+func TestVerifC07WriteGate(t *testing.T) {
+	k := vfNewKit(t, "C07", "udp-writegate")
+	defer k.Finish()
+	stackBuf := make([]byte, 4<<20)
+	traces := map[string]bool{}
+	i := 0
+	reps := k.N(1, 6)
+	for rep := 0; rep < reps; rep++ {
+		for _, tm := range []int64{100 * vfC07Ms, 300 * vfC07Ms} {
+			for _, teardown := range []string{"readerr", "sendfail", "sweep"} {
+				for _, gatedWrite := range []int{0, 1} { // which write of the session is slow
+					for _, follow := range []int{1, 2, 3} {
+						for _, between := range []string{"none", "other-after-first", "other-before-first"} {
+							for _, others := range []int{0, 2} {
+								i++
+								caseID := fmt.Sprintf("wg-%d", i)
+								if rc := k.ReplayCase(); rc != "" && rc != caseID {
+									continue
+								}
+								r := k.Rand(caseID)
+								sid, osid := uint32(30000+i), uint32(50000+i)
+								sc := &vfC07Script{CaseID: caseID, Timeout: tm, Sids: []uint32{sid, osid},
+									Roles: map[string]string{fmt.Sprint(sid): "write gated, torn down by " + teardown, fmt.Sprint(osid): "other session"},
+									Plan:  &vfC07Plan{NoDelays: r.Intn(2) == 0, DelaySeed: r.Uint64()}}
+								g := &vfC07Gen{r: r, sc: sc, tm: tm}
+								p := sc.Plan
+								p.setB(&p.WriteGate, sid, gatedWrite)
+								for o := 0; o < others; o++ {
+									bs := uint32(100 + o)
+									sc.Sids = append(sc.Sids, bs)
+									sc.Roles[fmt.Sprint(bs)] = "bystander"
+									g.msg(int64(o)*vfC07Ms, bs, 0, 40, "bystander")
+								}
+								t0 := int64(r.Intn(900))*vfC07Ms + vfC07Ms
+								if gatedWrite == 1 {
+									g.msg(t0, sid, 0, 64, "opens the session")
+									t0 += g.pick(vfC07Ms, tm/2)
+								}
+								g.msg(t0, sid, 0, 64, "its socket write is slow (gated)")
+								var open int64
+								switch teardown {
+								case "readerr":
+									g.op(t0+2*vfC07Ms, "readerr", sid, 0, "socket read error while the write is in flight")
+									open = t0 + 5*vfC07Ms
+								case "sendfail":
+									p.setB(&p.SendFail, sid, 0)
+									g.op(t0+2*vfC07Ms, "reply", sid, 48, "reply whose delivery to the client fails, while the write is in flight")
+									open = t0 + 5*vfC07Ms
+								case "sweep":
+									open = vfC07FirstGridAfter(t0+tm) + g.pick(vfC07Ms, 30*vfC07Ms) // the sweeper expires it during the write
+								}
+								sc.Steps = append(sc.Steps, vfC07Step{At: open, Op: "opengate", Sid: sid, Note: "the slow write returns"})
+								t1 := open + g.pick(25*vfC07Ms, 40*vfC07Ms)
+								if between == "other-before-first" {
+									g.msg(t1-vfC07Ms, osid, 0, 40, "another session in between")
+								}
+								for f := 0; f < follow; f++ {
+									g.msg(t1, sid, f%2, 64, "same id again after the teardown")
+									if f == 0 && between == "other-after-first" {
+										g.msg(t1+vfC07Ms, osid, 0, 40, "another session in between")
+									}
+									if f == follow-1 {
+										g.op(t1+3*vfC07Ms, "reply", sid, 40, "reply on the new socket")
+									}
+									t1 += g.pick(2*vfC07Ms, 10*vfC07Ms, tm/2)
+								}
+								sc.EndAt = vfC07FirstGridAfter(t1+tm) + 1500*vfC07Ms
+								if r.Intn(3) == 0 {
+									sc.EndAt = t1 + 5*vfC07Ms
+								}
+								for _, at := range []int64{open + 20*vfC07Ms, t1 + 4*vfC07Ms, sc.EndAt} {
+									if at <= sc.EndAt {
+										sc.Steps = append(sc.Steps, vfC07Step{At: at, Op: "snap"})
+									}
+								}
+								sort.SliceStable(sc.Steps, func(a, b int) bool { return sc.Steps[a].At < sc.Steps[b].At })
+								kept := sc.Steps[:0]
+								for _, st := range sc.Steps {
+									if st.At <= sc.EndAt {
+										kept = append(kept, st)
+									}
+								}
+								sc.Steps = kept
+								vfC07RunCase(t, k, sc, stackBuf, traces)
+							}
+						}
+					}
+				}
+			}
+		}
 	}
 }
